@@ -182,6 +182,9 @@ def name_program(name, idx):
     h(c, "exec", "touch", [("flag", T.BOOL)])
     h(c, "query", "load", [("key", T.STRING)], resp=g)
     h(c, "sudo", "force", [("value", g)])
+    # a kind that mentions only a *path* ending in the parameter's name: its message must stay non-generic
+    named = T.Ty(f"svmon::named::{name}", lambda r, d: {"v": r.randrange(1000)}, "struct")
+    h(c, "sudo", "note", [("tagged", named)]) if idx % 2 else h(c, "exec", "note", [("tagged", named), ("value", g)])
     h(c, "migrate", "migrate", [("value", T.tup(g, T.U32))])
     i0 = {"id": "i0", "module": "named_iface", "trait": "NamedIface", "variant": "NamedIface", "handlers": [], "custom_mode": ["assoc", "empty", "fixed"][idx % 3],
           "error": "MonErr", "assoc": [(name, "String")], "assoc_concrete": [(name, "String")]}
@@ -193,9 +196,35 @@ def name_program(name, idx):
     return p
 
 
+def pair_program(n1, n2, idx):
+    """Two type parameters whose first-use order (n1 then n2) is not alphabetical: the generated types are
+    `ExecMsg<n1, n2>`, whatever the names are."""
+    from . import types as T
+    p = {"name": f"np_{n1.lower()}_{n2.lower()}_{idx:02d}", "custom": {"msg": False, "query": False}, "error": "StdError", "types": [], "parts": [],
+         "replies": False, "overrides": [], "generics": [{"name": n1, "concrete": "u32"}, {"name": n2, "concrete": "String"}]}
+    g1, g2 = T.generic_param(n1, T.U32), T.generic_param(n2, T.STRING)
+    ti = lambda t: spec.intern_type(p, t)
+    c = {"id": "c", "module": None, "trait": None, "variant": "Contract", "handlers": []}
+    p["parts"].append(c)
+
+    def h(kind, nm, args, resp=None):
+        d = {"kind": kind, "name": nm, "safe": True, "args": [{"name": an, "ti": ti(t)} for an, t in args], "ret_err": "own",
+             "hid": f"c.{kind}.{nm}", "part": "c"}
+        if resp is not None:
+            d["resp_ti"] = ti(resp)
+        c["handlers"].append(d)
+    h("instantiate", "instantiate", [("first", g1), ("second", T.option(g2))])
+    h("exec", "store", [("left", g1), ("right", g2)])
+    h("query", "load", [("key", g1)], resp=g2)
+    h("sudo", "force", [("a", T.vec(g1)), ("b", g2)])
+    return p
+
+
 def name_programs(ctx):
     out = {}
     names = CANDIDATE_NAMES
     for k, nm in enumerate(names):
         out.setdefault(f"nm{k % 8:02d}", []).append(name_program(nm, k))
+    for k, (n1, n2) in enumerate([("Msg", "Data"), ("Z", "A"), ("Query", "Param"), ("T", "E"), ("Item", "Custom")]):
+        out.setdefault(f"nm{k % 8:02d}", []).append(pair_program(n1, n2, k))
     return out
